@@ -59,8 +59,8 @@ static const float SWEEP[7] = {-0.5f, 0.f, 0.25f, 0.5f, 0.75f, 1.f, 1.5f};
 
 struct Cfg { int S, P; unsigned char fill; int dq, dt; };   // depth after the configuration op: quick, thorough
 static const Cfg CFG[] = {
-    {2, 1, 0xFF, 6, 12}, {2, 1, 0x00, 6, 12}, {2, 2, 0xFF, 5, 7}, {2, 2, 0x00, 5, 7}, {3, 1, 0xFF, 5, 7}, {3, 1, 0x00, 5, 7},
-    {3, 2, 0xFF, 0, 6}, {3, 2, 0x00, 0, 6}, {4, 1, 0xFF, 0, 6}, {4, 1, 0x00, 0, 6}};
+    {2, 1, 0xFF, 6, 40}, {2, 1, 0x00, 5, 8}, {2, 2, 0xFF, 5, 6}, {2, 2, 0x00, 0, 5}, {3, 1, 0xFF, 5, 6}, {3, 1, 0x00, 0, 5},
+    {3, 2, 0xFF, 0, 5}, {3, 2, 0x00, 0, 4}, {4, 1, 0xFF, 0, 5}, {4, 1, 0x00, 0, 4}};
 enum { NCFG = sizeof(CFG) / sizeof(CFG[0]), MS = 4, MP = 2 };
 static int g_only_cfg = -1;   // engine run restricted to one configuration (-1: all of the tier)
 
